@@ -75,6 +75,15 @@ Theorem C19_store_into_same_layout :
 Proof. exact store_into_admits_same_layout. Qed.
 Print Assumptions C19_store_into_same_layout.
 
+(* Method signatures: type_spec_from_algosdk reads a parameter type as the spec of the same ARC-4 type or
+   refuses it (uint widths PyTeal has no class for); so an argument accepted by MethodCall for a parameter
+   WRITTEN param in the signature has the layout and the encodings of that written type. *)
+Theorem C19_method_signature_gate :
+  forall arg param : ty, method_arg_admits arg param = true ->
+    canon arg = canon param /\ forall v, arc4_encode arg v = arc4_encode param v.
+Proof. exact method_arg_admits_same_layout. Qed.
+Print Assumptions C19_method_signature_gate.
+
 (* Transaction and reference specs are not ARC-4 values (no encoding); for them the relation is:
    a transaction spec goes exactly to itself or to the generic `txn`; a reference spec exactly to itself;
    nothing else is assignable to or from them. *)
